@@ -127,13 +127,17 @@ Definition store (V : Type) := N -> option V.
 Definition supd {V} (s : store V) (k : N) (v : option V) : store V :=
   fun q => if N.eqb q k then v else s q.
 
-(* writes_map: `for k, v := range m { out[k] = g k v }` (with an optional filter) *)
-Definition writes_map {V W} (p : N -> V -> bool) (g : N -> V -> W) (l : list (N * V)) (out : store W) : store W :=
-  fold_left (fun s e => if p (fst e) (snd e) then supd s (fst e) (Some (g (fst e) (snd e))) else s) l out.
+(* keyed writes: every entry writes (or deletes, or leaves alone) the slot of its own key *)
+Definition keyed_writes {V W} (w : N -> V -> option (option W)) (l : list (N * V)) (out : store W) : store W :=
+  fold_left (fun s e => match w (fst e) (snd e) with Some x => supd s (fst e) x | None => s end) l out.
 
-(* deletes: `for k := range m { delete(out, k) }` *)
-Definition deletes_map {V W} (p : N -> V -> bool) (l : list (N * V)) (out : store W) : store W :=
-  fold_left (fun s e => if p (fst e) (snd e) then supd s (fst e) None else s) l out.
+(* writes_map: `for k, v := range m { if p k v { out[k] = g k v } }` *)
+Definition writes_map {V W} (p : N -> V -> bool) (g : N -> V -> W) : list (N * V) -> store W -> store W :=
+  keyed_writes (fun k v => if p k v then Some (Some (g k v)) else None).
+
+(* deletes: `for k, v := range m { if p k v { delete(out, k) } }` *)
+Definition deletes_map {V W} (p : N -> V -> bool) : list (N * V) -> store W -> store W :=
+  keyed_writes (fun k v => if p k v then Some None else None).
 
 (* collect_then_sort: `for k, v := range m { if p { xs = append(xs, g k v) } }; sort(xs)` *)
 Definition collect {V A} (p : N -> V -> bool) (g : N -> V -> A) (l : list (N * V)) : list A :=
